@@ -8,10 +8,11 @@ Mirrors, as the code is:
   * `Chemical._init_energies` (thermosteam/_chemical.py): which integral constant is computed under
     which guard and passed in which POSITION of which functor's data tuple, for the three reference
     phases and for phase-locked chemicals;  `Functor.from_args` (= `dict(zip(params, data))`);
-  * `PhaseTPHandle.__call__` (dispatch on the phase; `force_gas_critical_phase` is False by default);
+  * `PhaseTPHandle.__call__` (dispatch on the phase; the class switch `force_gas_critical_phase`: `effPhase`, `Hforce`);
   * `_init_data`: `Sfus = Hfus / Tm if (Tm and Hfus is not None) else None` on the stored values;
   * `IdealTPMixtureModel`, `IdealTMixtureModel`, `IdealEntropyModel` (thermosteam/mixture/ideal_mixture_model.py),
-    `Mixture.S` (empty stream → 0), `Mixture.xH/xS/xCn`.
+    `Mixture.S` (empty stream → 0), `Mixture.xH/xS/xCn`, and `Mixture.H/S` with `include_excess_energies`
+    (`mixtureHx`, `mixtureSx`; the per-chemical excess values are parameters).
 A Python `None` is `Option.none`; arithmetic on `None` raises `TypeError`, which is `Err.typeError`.
 -/
 namespace ThermoVerif.FreeEnergy
@@ -204,6 +205,19 @@ def Energies.S (E : Env α) (w : Energies α) (ph : Phase) (T P : α) : Except E
   | .locked _ s => s.eval E T P
   | .handles _ _ _ ss sl sg => (match ph with | .s => ss | .l => sl | .g => sg).eval E T P
 
+/-- `PhaseTHandle/PhaseTPHandle.__call__`: `if self.force_gas_critical_phase and T > self.Tc: phase = 'g'`
+(`force` is the class attribute, False by default) -/
+def effPhase (E : Env α) (force : Bool) (Tc T : α) (ph : Phase) : Phase :=
+  if force && !E.le T Tc then .g else ph
+
+/-- `chemical.H(phase, T, P)` with the class switch `force_gas_critical_phase` (a locked chemical has plain
+functors, which ignore the phase) -/
+def Energies.Hforce (E : Env α) (force : Bool) (Tc : α) (w : Energies α) (ph : Phase) (T P : α) : Except Err α :=
+  w.H E (effPhase E force Tc T ph) T P
+
+def Energies.Sforce (E : Env α) (force : Bool) (Tc : α) (w : Energies α) (ph : Phase) (T P : α) : Except Err α :=
+  w.S E (effPhase E force Tc T ph) T P
+
 /-- `_init_data` (after fix 7c3427a): `Sfus = Hfus / Tm if (Tm and Hfus is not None) else None`, on the STORED
 values (`self._Hfus`, `self._Tm`: constructor argument or database value). -/
 def initSfus (E : Env α) (Hfus Tm : Option α) : Option α :=
@@ -238,6 +252,17 @@ def idealEntropy (E : Env α) (mol vals : List α) : α :=
 /-- `Mixture.S` with `include_excess_energies = False`: `0.` for an empty `mol` -/
 def mixtureS (E : Env α) (mol vals : List α) : α :=
   if (mol.filter fun n => !E.isZero n).isEmpty then 0 else idealEntropy E mol vals
+
+/-- `Mixture.H`: `H = self._H(phase, mol, T, P); if self.include_excess_energies: H += self._H_excess(phase, mol, T, P)`;
+`_H_excess` is an `IdealTPMixtureModel` over the chemicals' excess-enthalpy handles, whose values `ex` are parameters
+(they come from the equation of state) -/
+def mixtureHx (E : Env α) (incl : Bool) (mol vals ex : List α) : α :=
+  if incl then idealMix E mol vals + idealMix E mol ex else idealMix E mol vals
+
+/-- `Mixture.S` with the flag: `0.` for an empty `mol`, else `_S(...)` plus, when the flag is set, `_S_excess(...)` -/
+def mixtureSx (E : Env α) (incl : Bool) (mol vals ex : List α) : α :=
+  if (mol.filter fun n => !E.isZero n).isEmpty then 0
+  else if incl then idealEntropy E mol vals + idealMix E mol ex else idealEntropy E mol vals
 
 /-- `Mixture.xH` / `xS` / `xCn`: sum over the phases of the single-phase value -/
 def xSum (perPhase : List α) : α := sumList perPhase
